@@ -9,6 +9,7 @@ package c07
 
 import (
 	"fmt"
+	"os"
 	"strings"
 
 	"github.com/bufbuild/bufverif/internal/evid"
@@ -16,6 +17,20 @@ import (
 )
 
 func evidExcluded() { evid.R().Excluded(keyKnownEmpty) }
+
+// off reports whether a generator trigger was switched off for a development run (C07_OFF=a,b,c).
+// In the check itself every trigger is on.
+var offSet = func() map[string]bool {
+	m := map[string]bool{}
+	for _, k := range strings.Split(os.Getenv("C07_OFF"), ",") {
+		if k != "" {
+			m[k] = true
+		}
+	}
+	return m
+}()
+
+func off(k string) bool { return offSet[k] }
 
 var depFiles = map[string]string{
 	"dep/alpha.proto": "syntax = \"proto3\";\npackage dep;\nmessage Alpha { string id = 1; }\n",
@@ -37,6 +52,7 @@ type tk struct {
 	decl  bool // first token of a declaration/statement
 	empty bool // the ';' of an empty statement
 	in    int  // indentation level (canonical)
+	tag   string // "compact-eq": '=' of a compact option, "lit-sep": separator inside a message literal
 }
 
 // Facts are the structural features of a generated file (classes, non-triviality).
@@ -96,6 +112,7 @@ type fgen struct {
 	extendable []extTarget
 
 	allowEmptyCmt bool
+	blockEndOK    bool // line comments may contain "*/" (e.g. a glob `**/*.proto`)
 	crlf          bool
 	noisy         int // percentage of gaps that get noise
 }
@@ -135,7 +152,7 @@ func (g *fgen) close(s string) {
 
 // emptyStmts emits 0..n empty statements (where the grammar allows `semicolons`).
 func (g *fgen) emptyStmts(label string, p int) {
-	if !g.pct(label, p) {
+	if !g.pct(label, p) || off("empty-stmt") {
 		return
 	}
 	n := g.intn(label+"n", 1, 2)
@@ -498,9 +515,9 @@ func (g *fgen) msgLiteral(depth int) {
 		}
 		switch g.intn("sep", 0, 3) {
 		case 0:
-			g.p(",")
+			g.p(",").tag = "lit-sep"
 		case 1:
-			g.p(";")
+			g.p(";").tag = "lit-sep"
 		}
 	}
 	g.close(cl)
@@ -554,6 +571,11 @@ func (g *fgen) wildLiteral(depth int) {
 			g.dotted("some.ext.name", false)
 			g.p("]")
 		case 1:
+			if off("any-url") {
+				t := g.w("anyoff")
+				t.bol = true
+				break
+			}
 			t := g.p("[")
 			t.bol = true
 			g.dotted("type.googleapis.com", false)
@@ -616,9 +638,9 @@ func (g *fgen) wildLiteral(depth int) {
 		}
 		switch g.intn("sep", 0, 3) {
 		case 0:
-			g.p(",")
+			g.p(",").tag = "lit-sep"
 		case 1:
-			g.p(";")
+			g.p(";").tag = "lit-sep"
 		}
 	}
 	g.close(cl)
@@ -634,7 +656,7 @@ func (g *fgen) optionStmt(target string, std []stdOpt, used map[string]bool) {
 }
 
 func (g *fgen) optionBody(target string, std []stdOpt, used map[string]bool) {
-	if g.wild && g.pct("wildoptp", 30) {
+	if g.wild && g.pct("wildoptp", 30) && !(off("reorder") && target == "f") {
 		g.wildOptionBody()
 		return
 	}
@@ -645,7 +667,7 @@ func (g *fgen) optionBody(target string, std []stdOpt, used map[string]bool) {
 			factsSave := g.facts
 			o := custOpts[g.intn("custpick", 0, len(custOpts)-1)]
 			key := "(" + target + "_" + o.suffix + ")"
-			if !o.repeated && used[key] && !g.wild {
+			if (!o.repeated || (off("reorder") && target == "f")) && used[key] && (!g.wild || off("reorder")) {
 				g.toks, g.facts = g.toks[:mark], factsSave
 				continue
 			}
@@ -657,7 +679,10 @@ func (g *fgen) optionBody(target string, std []stdOpt, used map[string]bool) {
 	if len(std) > 0 {
 		for tries := 0; tries < 6; tries++ {
 			o := std[g.intn("stdopt", 0, len(std)-1)]
-			if used[o.name] && !g.wild {
+			if used[o.name] && (!g.wild || off("reorder")) {
+				continue
+			}
+			if o.name == "java_string_check_utf8" && g.syntax == "editions" {
 				continue
 			}
 			used[o.name] = true
@@ -668,7 +693,7 @@ func (g *fgen) optionBody(target string, std []stdOpt, used map[string]bool) {
 		}
 	}
 	// nothing valid is left for this element
-	if g.custom {
+	if g.custom && !(off("reorder") && target == "f") {
 		g.customOptionNamed(target, custOpts[1]) // repeated tag: may be given any number of times
 		return
 	}
@@ -715,7 +740,7 @@ func (g *fgen) stdValue(typ string) {
 
 var fileStdOpts = []stdOpt{
 	{"java_package", "string"}, {"java_outer_classname", "string"}, {"java_multiple_files", "bool"}, {"java_string_check_utf8", "bool"},
-	{"optimize_for", "enum:SPEED,CODE_SIZE,LITE_RUNTIME"}, {"go_package", "string"}, {"cc_generic_services", "bool"},
+	{"optimize_for", "enum:SPEED,CODE_SIZE"}, {"go_package", "string"}, {"cc_generic_services", "bool"},
 	{"java_generic_services", "bool"}, {"py_generic_services", "bool"}, {"deprecated", "bool"}, {"cc_enable_arenas", "bool"},
 	{"objc_class_prefix", "string"}, {"csharp_namespace", "string"}, {"swift_prefix", "string"}, {"php_class_prefix", "string"},
 	{"php_namespace", "string"}, {"php_metadata_namespace", "string"}, {"ruby_package", "string"},
@@ -733,6 +758,14 @@ func (g *fgen) compactOptions(target string, std []stdOpt, nmin, nmax int, extra
 		return
 	}
 	g.facts.CompactOptions++
+	mark := len(g.toks)
+	defer func() {
+		for i := mark; i < len(g.toks); i++ {
+			if g.toks[i].s == "=" {
+				g.toks[i].tag = "compact-eq"
+			}
+		}
+	}()
 	g.open("[")
 	used := map[string]bool{}
 	for i := 0; i < n; i++ {
@@ -753,7 +786,10 @@ func (g *fgen) compactOptions(target string, std []stdOpt, nmin, nmax int, extra
 var scalarTypes = []string{"int32", "int64", "uint32", "uint64", "sint32", "sint64", "fixed32", "fixed64", "sfixed32", "sfixed64", "bool", "string", "bytes", "double", "float"}
 var mapKeyTypes = []string{"int32", "int64", "uint32", "uint64", "sint32", "sint64", "fixed32", "fixed64", "sfixed32", "sfixed64", "bool", "string"}
 
-type numAlloc struct{ used map[int]bool }
+type numAlloc struct {
+	used   map[int]bool
+	capped bool // a `reserved N to max` exists: only small numbers are free
+}
 
 type extTarget struct {
 	fq   string
@@ -775,6 +811,9 @@ func (g *fgen) fieldNum(a *numAlloc) int {
 			n = g.intn("hugenum", 20000, 536870911)
 		default:
 			n = g.intn("num", 1, 60)
+		}
+		if a.capped && n >= 100 {
+			n = g.intn("smallnum", 1, 99)
 		}
 		if n >= 100 && n <= 299 { // reserved for extension ranges / reserved statements
 			continue
@@ -923,7 +962,7 @@ func (g *fgen) group(a *numAlloc, scope string, depth int, where string) {
 	g.w(name)
 	g.p("=")
 	g.w(g.intLit(uint64(g.fieldNum(a))))
-	if g.pct("groupopts", 20) {
+	if g.pct("groupopts", 20) && !off("group-options") {
 		g.compactOptions("fl", []stdOpt{{"deprecated", "bool"}}, 1, 1, nil)
 	}
 	g.messageBody(scope+"."+name, depth+1, true)
@@ -962,7 +1001,8 @@ func (g *fgen) oneof(a *numAlloc, scope string, depth int) {
 	g.emptyStmts("afteroneof", 4)
 }
 
-func (g *fgen) rangesList(label string, lo, hi int, allowMax bool, negOK bool) (covered []int) {
+func (g *fgen) rangesList(label string, lo, hi int, allowMax bool, a *numAlloc) (covered []int) {
+	negOK := label == "eres" && g.wild
 	n := g.intn(label+"n", 1, 3)
 	cur := lo
 	for i := 0; i < n && cur < hi; i++ {
@@ -985,9 +1025,20 @@ func (g *fgen) rangesList(label string, lo, hi int, allowMax bool, negOK bool) (
 		covered = append(covered, start)
 		if g.pct(label+"to", 50) {
 			g.w("to")
-			if allowMax && i == n-1 && g.pct(label+"max", 30) {
+			bigUsed := false
+			if a != nil {
+				for k := range a.used {
+					if k >= start {
+						bigUsed = true
+					}
+				}
+			}
+			if allowMax && i == n-1 && !bigUsed && g.pct(label+"max", 30) {
 				g.w("max")
 				cur = hi
+				if a != nil {
+					a.capped = true
+				}
 			} else {
 				end := start + g.intn(label+"len", 0, 20)
 				if end >= hi {
@@ -1047,7 +1098,7 @@ func (g *fgen) messageBody(fq string, depth int, isGroup bool) {
 			hasExtRange = true
 			g.facts.ExtRanges++
 			g.start("extensions")
-			covered := g.rangesList("ext", 100, 200, false, false)
+			covered := g.rangesList("ext", 100, 200, false, nil)
 			if g.pct("extopts", 30) {
 				nmax := 1
 				if g.custom {
@@ -1061,7 +1112,7 @@ func (g *fgen) messageBody(fq string, depth int, isGroup bool) {
 			hasReservedRange = true
 			g.facts.Reserved++
 			g.start("reserved")
-			g.rangesList("res", 200, 300, true, false)
+			g.rangesList("res", 200, 300, true, a)
 			g.end()
 		case k == 15:
 			g.facts.Reserved++
@@ -1117,13 +1168,14 @@ func (g *fgen) enum(scope string) {
 	prefix := strings.ToUpper(name) + "_"
 	n := g.intn("values", 1, 5)
 	nums := map[int]bool{}
+	firstNum := 0
 	for i := 0; i < n; i++ {
 		num := 0
 		if i > 0 {
 			for {
 				num = g.intn("valnum", -20, 60)
 				if alias && i == 1 {
-					num = 0
+					num = firstNum
 				}
 				if !nums[num] || (alias && i == 1) {
 					break
@@ -1131,6 +1183,9 @@ func (g *fgen) enum(scope string) {
 			}
 		} else if g.syntax == "proto2" && g.pct("nonzerofirst", 20) {
 			num = g.intn("firstnum", 1, 9)
+		}
+		if i == 0 {
+			firstNum = num
 		}
 		nums[num] = true
 		vname := fmt.Sprintf("%sV%d", prefix, i)
@@ -1155,13 +1210,13 @@ func (g *fgen) enum(scope string) {
 		// allow_alias without an alias does not link
 		g.w(prefix + "ALIAS").bol = true
 		g.p("=")
-		g.w("0")
+		g.w(fmt.Sprintf("%d", firstNum))
 		g.p(";")
 	}
 	if g.pct("enumreserved", 20) {
 		g.facts.Reserved++
 		g.start("reserved")
-		g.rangesList("eres", 100, 200, true, false)
+		g.rangesList("eres", 100, 200, true, nil)
 		g.end()
 	}
 	if g.pct("enumresnames", 15) {
@@ -1180,13 +1235,16 @@ func (g *fgen) enum(scope string) {
 
 // extend emits an extend block for g.extendable[idx] (a message of this file with an extension range).
 func (g *fgen) extend(idx int) {
-	g.facts.Extends++
 	tg := &g.extendable[idx]
+	if len(tg.nums) == 0 {
+		return
+	}
+	g.facts.Extends++
 	g.start("extend")
 	g.typeRef(tg.fq, false)
 	g.open("{")
 	a := &numAlloc{used: map[int]bool{}}
-	n := g.intn("extfields", 0, 2)
+	n := g.intn("extfields", 1, 2)
 	for i := 0; i < n && len(tg.nums) > 0; i++ {
 		g.forceNums = []int{tg.nums[0]}
 		tg.nums = tg.nums[1:]
@@ -1380,6 +1438,7 @@ func genFile(t *rapid.T) (string, Facts) {
 	g.custom = g.pct("custom", 45)
 	g.allowEmptyCmt = g.pct("emptycmt", 10)
 	g.crlf = g.pct("crlf", 5)
+	g.blockEndOK = g.pct("blockend", 3) && !off("line-comment-block-end")
 	g.noisy = g.pick2("noisy", 5, 15, 30, 60)
 	switch g.intn("pkgform", 0, 4) {
 	case 0:
@@ -1423,7 +1482,7 @@ func genFile(t *rapid.T) (string, Facts) {
 	if g.wild && g.pct("missingimport", 30) {
 		imps = append(imps, importStmt{path: g.pick("nopath", "nope.proto", "a/b/missing.proto", "zzz.proto")})
 	}
-	if len(imps) > 0 && g.pct("dupimport", 12) {
+	if len(imps) > 0 && g.pct("dupimport", 12) && !off("dup-import") {
 		// duplicate import (such a file does not compile)
 		d := imps[g.intn("dupwhich", 0, len(imps)-1)]
 		if g.pct("dupmod", 30) {
@@ -1457,7 +1516,7 @@ func genFile(t *rapid.T) (string, Facts) {
 		header = append(header, func() {
 			g.facts.FileOptions++
 			g.start("option")
-			if g.custom && g.pct("repfileopt", 35) {
+			if g.custom && g.pct("repfileopt", 35) && !off("reorder") {
 				// repeated custom option: order of values is meaning
 				g.facts.RepeatedFileOpt++
 				o := custOpts[g.pick2("repwhich", 1, 2, 7)]
@@ -1468,7 +1527,7 @@ func genFile(t *rapid.T) (string, Facts) {
 			g.end()
 		})
 	}
-	if g.wild && nOpt > 0 && g.pct("dupfileopt", 30) {
+	if g.wild && nOpt > 0 && g.pct("dupfileopt", 30) && !off("reorder") {
 		header = append(header, func() {
 			g.facts.FileOptions++
 			g.start("option")
@@ -1588,6 +1647,9 @@ func (g *fgen) cid() string {
 // lineComment returns a `//` comment without the line break.
 func (g *fgen) lineComment() string {
 	id := g.cid()
+	if g.blockEndOK && g.pct("lcblockend", 25) {
+		return "// " + id + " see **/*.proto"
+	}
 	switch g.intn("lcform", 0, 9) {
 	case 0:
 		return "//" + id
@@ -1748,6 +1810,15 @@ func (g *fgen) gap(prev, cur *tk) string {
 	if !g.pct("gapnoise", g.noisy) {
 		return g.canonical(prev, cur)
 	}
+	if prev == nil && off("leading-blank") {
+		return ""
+	}
+	if off("compact-name-trailing") && cur != nil && cur.tag == "compact-eq" {
+		return " "
+	}
+	if off("msglit-sep") && ((cur != nil && cur.tag == "lit-sep") || (prev != nil && prev.tag == "lit-sep")) {
+		return " "
+	}
 	indent := ""
 	if cur != nil {
 		indent = strings.Repeat("  ", cur.in)
@@ -1828,10 +1899,18 @@ func (g *fgen) gap(prev, cur *tk) string {
 		} else {
 			g.facts.OddComments++
 		}
-		return g.pick("eolsp", " ", "", "  ", "\t") + c + nl + indent
+		sp := g.pick("eolsp", " ", "", "  ", "\t")
+		if sp == "" && off("glue") {
+			sp = " "
+		}
+		return sp + c + nl + indent
 	case 6: // inline block comment
 		g.facts.OddComments++
-		return g.pick("insp", " ", "", must) + g.blockComment(false, indent) + g.pick("insp2", " ", "", " ")
+		sp := g.pick("insp", " ", "", must)
+		if sp == "" && off("glue") {
+			sp = " "
+		}
+		return sp + g.blockComment(false, indent) + g.pick("insp2", " ", "", " ")
 	case 7: // inline multi-line block comment
 		g.facts.OddComments++
 		return " " + g.blockComment(true, indent) + g.pick("aftermulti", " ", nl+indent, "")
@@ -1840,7 +1919,11 @@ func (g *fgen) gap(prev, cur *tk) string {
 		return " " + g.lineComment() + nl + indent + g.pick("cont", "", "  ", "    ")
 	case 9: // several comments of mixed kinds
 		var s strings.Builder
-		s.WriteString(g.pick("mixsp", " ", "", nl+indent))
+		sp := g.pick("mixsp", " ", "", nl+indent)
+		if sp == "" && off("glue") {
+			sp = " "
+		}
+		s.WriteString(sp)
 		k := g.intn("nmixed", 2, 4)
 		for j := 0; j < k; j++ {
 			g.facts.OddComments++
@@ -1848,7 +1931,11 @@ func (g *fgen) gap(prev, cur *tk) string {
 			case 0:
 				s.WriteString(g.lineComment() + nl + indent)
 			case 1:
-				s.WriteString(g.blockComment(false, indent) + g.pick("mixafter", " ", "", nl+indent, nl+nl+indent))
+				after := g.pick("mixafter", " ", "", nl+indent, nl+nl+indent)
+				if after == "" && off("glue") {
+					after = " "
+				}
+				s.WriteString(g.blockComment(false, indent) + after)
 			default:
 				s.WriteString(g.blockComment(true, indent) + g.pick("mixafter", " ", nl+indent, nl+nl+indent))
 			}
